@@ -35,20 +35,42 @@ def configs(tier, seed):
             if algo == "Zooming" and part == "RB":
                 Tq = 2 + q
             out.append({"name": "query-%s-%s-T%d" % (algo, part, Tq), "mode": "query", "algo": algo, "part": part, "d": 1, "T": Tq, "cost": 3 ** Tq})
+    # Mode B: concrete prefix, then symbolic rewards; time labels symbolic in ALL rounds of the second run
+    for c in c01.modeb_configs(tier, list(TIME_ALGOS), parts=("B", "K3")):
+        if c["prefix"]["seed"] == 0:
+            out.append(dict(c, name="time-" + c["name"], mode="time"))
+    for c in c01.modeb_configs(tier, list(QUERY_ALGOS), parts=("B", "K3")):
+        if c["prefix"]["seed"] == 0:
+            out.append(dict(c, name="query-" + c["name"], mode="query"))
     out.append({"name": "twin-time", "mode": "time", "algo": "T_HOO", "part": "B", "d": 1, "T": 2, "twin": True, "expect_fail": "twin"})
     return out
 
 
-def run_labelled(ctx, cfg, dom, rewards, times, queries=None):
+def run_labelled(ctx, cfg, dom, rewards, times, queries=None, second=False):
+    from harness.runlevel import prefix_reward
     algo = build(ctx, cfg, dom)
     pts = []
     for k in range(len(rewards)):
         if queries is not None:
             for _ in range(queries[k]):
                 ctx.soft_call(algo.get_last_point)
-        p = ctx.call("pull", algo.pull, times[k])
+        if second:
+            ok, p = ctx.soft_call(algo.pull, times[k])
+            if not ok:
+                ctx.fail("second_run:raised_only_in_this_run", "pull raised %s although the reference run did not" % type(p).__name__)
+                return pts
+        else:
+            p = ctx.call("pull", algo.pull, times[k])
         pts.append(p)
-        ctx.call("receive_reward", algo.receive_reward, times[k], rewards[k])
+        if rewards[k] is None:  # Mode B prefix round of the reference run: the reward is a function of the point
+            rewards[k] = prefix_reward(cfg, p, k + 1)
+        if second:
+            ok, e = ctx.soft_call(algo.receive_reward, times[k], rewards[k])
+            if not ok:
+                ctx.fail("second_run:raised_only_in_this_run", "receive_reward raised %s although the reference run did not" % type(e).__name__)
+                return pts
+        else:
+            ctx.call("receive_reward", algo.receive_reward, times[k], rewards[k])
     ok, lp = ctx.soft_call(algo.get_last_point)
     pts.append(lp if ok else None)
     return pts
@@ -56,8 +78,14 @@ def run_labelled(ctx, cfg, dom, rewards, times, queries=None):
 
 def run(ctx, cfg):
     T, d = cfg["T"], cfg["d"]
-    dom = sym_box(ctx, d)
-    rewards = [ctx.real("r%d" % t) for t in range(1, T + 1)]
+    pre = cfg.get("prefix")
+    if pre:
+        from harness.runlevel import PREFIX_BOX
+        dom = [[PREFIX_BOX[0], PREFIX_BOX[1]] for _ in range(d)]
+        rewards = [None] * pre["P"] + [ctx.real("r%d" % t) for t in range(pre["P"] + 1, T + 1)]
+    else:
+        dom = sym_box(ctx, d)
+        rewards = [ctx.real("r%d" % t) for t in range(1, T + 1)]
     shims.rng_record()
     try:
         a = run_labelled(ctx, cfg, dom, rewards, list(range(1, T + 1)))
@@ -71,12 +99,16 @@ def run(ctx, cfg):
                     ctx.assume(t > prev)
                 prev = t
                 labels.append(t)
-            b = run_labelled(ctx, cfg, dom, rewards, labels)
+            b = run_labelled(ctx, cfg, dom, rewards, labels, second=True)
             what = "rounds labelled 1..T vs arbitrary increasing labels"
         else:
-            qs = [ctx.choose(3 if T <= 4 else 2, "queries") for _ in range(T)]
+            if pre:
+                qs = [0] * pre["P"] + [ctx.choose(3, "queries") for _ in range(T - pre["P"])]
+                qs[pre["P"] - 1] = 1  # and one query at the end of the prefix
+            else:
+                qs = [ctx.choose(3 if T <= 4 else 2, "queries") for _ in range(T)]
             ctx.note("queries before each pull: %s" % qs)
-            b = run_labelled(ctx, cfg, dom, rewards, list(range(1, T + 1)), queries=qs)
+            b = run_labelled(ctx, cfg, dom, rewards, list(range(1, T + 1)), queries=qs, second=True)
             what = "run with get_last_point() inserted %s times before the pulls vs plain run" % qs
     finally:
         shims.rng_fresh()
